@@ -132,7 +132,7 @@ package reconciler
 // C08 — an update event is let through when the Ingress is selected before *or*
 // after the change (leaving the class must reach the handler, which removes it)
 //@ func (*watchers).handlersIngress$6
-//@   props C08
+//@   props C08 C14
 //@   ensures either:  result == (first(Valid) || (calls(Valid) == 2 && last(Valid)))
 //@   ensures asked:   calls(Valid) >= 1 && (!first(Valid) ==> calls(Valid) == 2)
 //@   at call IsValidIngress#1 assert old: iface($arg1) == ue.ObjectOld
